@@ -123,10 +123,18 @@ def _replay(item):
   if not q.need_calibration:
     return out
   results, snaps = [], []
+  # hook H3: the calibrator appends its steps to this file; the harness adds one "call" line with the arguments before every call
+  tpath = os.path.join(tlc.WORK, "calib_trace_%d.ndjson" % os.getpid())
+  os.makedirs(tlc.WORK, exist_ok=True)
+  open(tpath, "w").close()
+  os.environ["AI_EDGE_QUANTIZER_VERIF_CALIB_TRACE"] = tpath
+  name2id = {info["names"][si][t]: idx[(si, t)] for (si, t) in acts}
   for r, b in enumerate(beh["base"]):
     prev, first, last, g = b
     prev_obj = results[prev - 1] if prev else None
     before = copy.deepcopy(results)
+    with open(tpath, "a") as f:
+      f.write(json.dumps({"ev": "call", "prev": prev, "first": first, "last": last, "sig": g}) + "\n")
     try:
       res = q.calibrate([d[g - 1] for d in data[first - 1:last]], signature_key=sigkey[g - 1] if nsub > 1 else None, previous_calibration_result=prev_obj)
     except Exception as e:  # pylint: disable=broad-except
@@ -189,6 +197,16 @@ def _replay(item):
           out["compared"] += 1
           if gmn.shape != tmn.shape or not np.array_equal(gmn, tmn) or not np.array_equal(gmx, tmx):
             out["problems"].append(("const-value", "statistics of constant %s differ from its true %s min/max" % (name, "per-channel" if sub["trole"][t] == "w" else "per-tensor")))
+  # the recorded steps, tensor names renamed to the specification's runtime-tensor ids (constants dropped)
+  events = []
+  for line in open(tpath):
+    e = json.loads(line)
+    for k in ("filled", "empty", "updated"):
+      if k in e:
+        e[k] = sorted(name2id[n] for n in e[k] if n in name2id)
+    events.append(e)
+  os.unlink(tpath)
+  out["trace"] = {"sel": [bool(x) for x in beh["sel"]], "selIn": bool(beh["selIn"]), "selOut": bool(beh["selOut"]), "events": events}
   return out
 
 
@@ -236,6 +254,43 @@ def main():
   with cf.ProcessPoolExecutor(max_workers=args.procs, initializer=_winit) as ex:
     for out in ex.map(_replay, items, chunksize=4):
       results.append(out)
+  # ---- step-level trace validation (CalibTrace.tla), one TLC run per model
+  nacc = nrej = nev = 0
+  for mname, mdl in MODELS.items():
+    trs = [(i, o["trace"]) for i, o in enumerate(results) if o["model"] == mname and o.get("trace") and o["trace"]["events"]]
+    if not trs:
+      continue
+    _, _, consts = runtime_view(mdl)
+    consts.update(NSamples=str(nsamples), MaxSessions=str(maxsess), Fixes=tlc.tla_str_set(["deepcopy", "once"]))
+    tp = os.path.join(tlc.WORK, "C09_trace_%s.json" % mname)
+    json.dump([t for _, t in trs], open(tp, "w"))
+    rt = tlc.run("C09_trace_%s" % mname, "CalibTrace", consts, constraints=["EmitT"], spec_name="TraceSpec", workers=16, env={"TRACE_FILE": tp},
+                 extends="CalibTrace", timeout=3600)
+    best = {}
+    for line in rt.printed("TVERDICT"):
+      try:
+        v = json.loads(json.loads(line[line.index(",") + 1:line.rindex(">>")].strip()))
+      except Exception:  # pylint: disable=broad-except
+        continue
+      if v["ti"] not in best or (v["accepted"] and not best[v["ti"]]["accepted"]) or (not best[v["ti"]]["accepted"] and v["consumed"] > best[v["ti"]]["consumed"]):
+        best[v["ti"]] = v
+    if rt.error or len(best) != len(trs):
+      chk.machinery("CalibTrace run failed on %s: %d verdicts for %d traces: %s" % (mname, len(best), len(trs), rt.out[-500:]))
+      continue
+    states += rt.distinct
+    trans += rt.generated
+    for k, (i, t) in enumerate(trs):
+      v = best[k + 1]
+      nev += len(t["events"])
+      if v["accepted"]:
+        nacc += 1
+        if not (v["exact"] and v["untouched"] and v["onlysel"]):
+          chk.violation("property predicate false on the state reconstructed from the recorded calibration steps: %s" % v,
+                        {"property": "C09", "model": mname, "behaviour": results[i]["beh"], "clause": "trace-state", "verdict": v})
+      else:
+        nrej += 1
+        nxt = t["events"][v["consumed"]] if v["consumed"] < len(t["events"]) else None
+        chk.note("spec-drift calibration trace of %s rejected at event %d (%s); behaviour %s" % (mname, v["consumed"] + 1, nxt, json.dumps(results[i]["beh"]["base"])))
   compared = 0
   for out in results:
     compared += out["compared"]
@@ -245,12 +300,13 @@ def main():
     chk.machinery("vacuous: no statistics compared")
   chk.cov.update({
       "states": states, "transitions": trans, "traces_validated_against_impl": len(results), "tensor_statistics_compared": compared,
+      "step_level_traces_accepted": nacc, "step_level_traces_rejected": nrej, "hook_events_validated": nev,
       "models": per_model, "samples_per_dataset": nsamples, "max_sessions": maxsess,
       "evaluations": len(results), "distinct_nontrivial": sum(1 for o in results if o["need_cal"]),
       "rule": "behaviour = (selection of operators incl. virtual INPUT/OUTPUT, split of the dataset into sessions - possibly empty ones -, the "
               "signature each session calibrates, which earlier result each session resumes from - also twice from the same one); all "
               "enumerated by TLC; non-trivial = the recipe needs calibration",
-      "samples": [dict(model=o["model"], behaviour=o["beh"]) for o in results[:2]], "replay_wall_s": round(time.time() - t0, 1),
+      "samples": [dict(model=o["model"], behaviour=o["beh"]) for o in results[:2]] + [dict(trace=o.get("trace")) for o in results[:1]], "replay_wall_s": round(time.time() - t0, 1),
       "exhaustive": args.tier == "thorough",
   })
   chk.assumptions += ["true per-sample min/max come from the harness's own LiteRT interpreter run (preserve_all_tensors)",
